@@ -46,10 +46,16 @@ META = {
         "--keep-chain changes column 22 only, renaming columns 13-20 only, the numeric tokens of the --whitespace line "
         "are the numeric column slices of the plain line (within C08's column-capacity guard), line i is atom i with "
         "serial i+1 under every option combination. Proved for ALL record lists: drop_water is exactly deletion of the "
-        "water records and commutes with any line-wise parser. NOT proved, explored on the real code only: that each "
-        "stage really is a function of the options the translator lists (trusted translator, cross-checked by the "
-        "proxy/tracer on real runs), the 2^6 option lattice x force fields x builder structures, --drop-water "
-        "end-to-end, and the --neutraln/--neutralc statement (all 20 residue types at both termini, PARSE)."
+        "water records and commutes with any line-wise parser (its two hypotheses about the parser are checked on the "
+        "real pdb reader + main.drop_water for every generated record kind). Proved over C02's model of set_termini/"
+        "set_state and the state tables generated from dat/ (PARSE): the flags change the terminus state of N-/C-flagged "
+        "residues only (never NPRO, never an unflagged residue), and for ALL residue lists in which every residue is "
+        "unchanged or a terminus going N->NEUTRAL-N / C->NEUTRAL-C (NEUTRAL-CPRO excluded) the exact total charge moves "
+        "by -1 per neutralised N-terminus and +1 per neutralised C-terminus. NOT proved, explored on the real code only: "
+        "that each stage really is a function of the options the translator lists (trusted translator, cross-checked by "
+        "the proxy/tracer on real runs), the 2^6 option lattice x force fields x builder structures, --drop-water "
+        "end-to-end (every water spelling: HOH/WAT x ATOM/HETATM x position, alt-locs, insertion codes, companions), and "
+        "the neutral-termini statement end-to-end incl. coordinates (all 20 residue types at both termini, PARSE)."
     ),
     "level_note": (
         "Trusted: Coq kernel+vm_compute; gen/stages.py (Python-ast dataflow: name-based call resolution, constant "
@@ -57,7 +63,8 @@ META = {
         "syn_reads are checked against observed reads, its kinds against before/after snapshots of the biomolecule, "
         "its effective `reads` (syn_reads minus reads = reads the translator calls ineffective) only by the "
         "metamorphic runs; C08's string model of the writer (tied to the code by C08's check); the neutral-termini "
-        "part has no Coq model (search only)."
+        "theorems rest on C02's hand model of set_termini/set_state (tied by C02's check and, here, by comparing every "
+        "residue's ffname between the runs) and on gen/ff_tables.py + gen/states.py."
     ),
     "design_ref": "DESIGN.md 4 C09",
 }
@@ -80,9 +87,17 @@ THEOREMS = [
     "C09_order_preserved",
     "C09_print_options_keep_numbers",
     "C09_print_nonvacuous",
+    "C09_neutral_only_termini",
+    "C09_neutral_internal_untouched",
+    "C09_neutral_npro_unchanged",
+    "C09_neutral_rows_match_prefix",
+    "C09_neutral_shift",
+    "C09_neutral_changes_only_termini",
+    "C09_neutral_internal_unchanged",
+    "C09_neutral_nonvacuous",
 ]
 # theorems whose statement mentions the generated table
-GENERATED_THEOREMS = ["C09_generated_obligation", "C09_generated_noninterference", "C09_ffout_after_params"]
+GENERATED_THEOREMS = ["C09_generated_obligation", "C09_generated_noninterference", "C09_ffout_after_params", "C09_neutral_rows_match_prefix", "C09_neutral_shift", "C09_neutral_changes_only_termini", "C09_neutral_internal_unchanged", "C09_neutral_nonvacuous"]
 ALLOWED_AXIOMS = []
 
 FORMAT_OPTS = ["whitespace", "keep_chain", "include_header", "pdb_output", "apbs_input", "ffout"]
@@ -116,7 +131,14 @@ def load_generator():
 
 
 def regenerate(ctx):
-    """Stages.v from the CURRENT repo. Returns the translator's info dict or None."""
+    """Stages.v and the force-field / state tables (FF_*.v, States.v, StatesFF_*.v, used by
+    the neutral-termini theorems) from the CURRENT repo. Returns the translator's info dict or None."""
+    import subprocess
+
+    p = subprocess.run([sys.executable, str(core.VERIF / "gen" / "all.py"), "--only", "ff_tables,states"], capture_output=True, text=True, env={**os.environ, "VERIF_REPO": str(core.REPO)})
+    if p.returncode != 0:
+        ctx.broke("generator-broken", "gen/all.py --only ff_tables,states (state tables from the repo's dat/ files)", (p.stdout + p.stderr)[-2000:])
+        return None
     try:
         gen = load_generator()
         info, text = gen.generate(core.REPO)
@@ -611,25 +633,199 @@ def delete_water_lines(pdb_text):
     return "".join(out)
 
 
-def dropwater_structures(ctx):
+WATER_RECORDS = ("ATOM", "HETATM")
+COMPANIONS = ("ANISOU", "SIGATM", "SIGUIJ")
+NEAR_MISS_NAMES = ("DOD", "H2O", "TIP", "SOL", "HO")  # water-like names the code does NOT treat as water
+WATER_POSITIONS = ("before-protein", "mid-chain", "between-chains", "after-protein")
+
+
+def _coord_line(rec, serial, name, altloc, resname, chain, resseq, icode, xyz, elem):
+    nm = name if len(name) == 4 else " " + name.ljust(3)
+    return f"{rec:<6}{serial:>5} {nm}{altloc or ' '}{resname:>3} {chain or ' '}{resseq:>4}{icode or ' '}   {xyz[0]:8.3f}{xyz[1]:8.3f}{xyz[2]:8.3f}  1.00 20.00          {elem:>2}\n"
+
+
+def _companion_line(rec, serial, name, altloc, resname, chain, resseq, icode, elem):
+    nm = name if len(name) == 4 else " " + name.ljust(3)
+    head = f"{rec:<6}{serial:>5} {nm}{altloc or ' '}{resname:>3} {chain or ' '}{resseq:>4}{icode or ' '}"
+    if rec == "SIGATM":
+        return head + f"   {0.012:8.3f}{0.013:8.3f}{0.011:8.3f}  0.00  0.10          {elem:>2}\n"
+    return head + f" {1234:7d}{2345:7d}{3456:7d}{12:7d}{-23:7d}{34:7d}      {elem:>2}\n"
+
+
+def water_lines(w):
+    """PDB lines of one water as specified (record kind, names, alt-locs, companions, hydrogens)."""
+    out = []
+    atoms = [("O", w["xyz"], "O")]
+    if w["hydrogens"]:
+        x, y, z = w["xyz"]
+        atoms += [("H1", (x + 0.757, y + 0.586, z), "H"), ("H2", (x - 0.757, y + 0.586, z), "H")]
+    for alt in w["altlocs"]:
+        for name, xyz, elem in atoms:
+            if alt == "B":
+                xyz = (xyz[0] + 0.3, xyz[1], xyz[2] + 0.2)
+            out.append(_coord_line(w["record"], 0, name, alt, w["resname"], w["chain"], w["resseq"], w["icode"], xyz, elem))
+            for comp in w["companions"]:
+                out.append(_companion_line(comp, 0, name, alt, w["resname"], w["chain"], w["resseq"], w["icode"], elem))
+    return out
+
+
+def renumber_serials(lines):
+    out, n = [], 0
+    for ln in lines:
+        rec = ln[0:6]
+        if rec in ("ATOM  ", "HETATM"):
+            n += 1
+            ln = ln[:6] + f"{n:>5}" + ln[11:]
+        elif rec in ("ANISOU", "SIGATM", "SIGUIJ"):
+            ln = ln[:6] + f"{max(n, 1):>5}" + ln[11:]
+        elif rec.startswith("TER"):
+            n += 1
+            ln = "TER\n"
+        out.append(ln)
+    return out
+
+
+def dropwater_structure(ctx, k, must):
+    """A peptide pair + a free amino acid written as HETATM + waters in every spelling.
+    `must` = list of (resname, record, position) features this structure has to contain."""
     import numpy as np
 
     B = _B()
     rng = ctx.rng
+    seqa = [rng.choice(TITRATABLE), rng.choice(["ALA", "GLY", "SER", "LEU"]), rng.choice(["SER", "THR", "TYR", "ASN"]), rng.choice(["ALA", "VAL", "LYS", "GLU"])]
+    seqb = [rng.choice(["ALA", "GLY", "SER"]), rng.choice(TITRATABLE), rng.choice(["ALA", "THR", "GLN"])]
+    pa = B.build_peptide(seqa, chain="A")
+    pb = B.build_peptide(seqb, chain="B", origin=(0.0, 0.0, 22.0))
+    het_name = rng.choice(["MET", "PHE", "LEU"])
+    het = B.build_peptide([het_name], chain="L", origin=(0.0, 24.0, 0.0))
+    solute = pa + pb + het
+    nwat = len(must) + 1
+    pts = B.waters(nwat + 1, around=solute, rng=np.random.default_rng(rng.randrange(1 << 30)), min_dist=3.6, near=[a for a in pa if a.name == "O"][1])
+    waters = []
+    for i in range(nwat):
+        if i < len(must):
+            resname, record, position = must[i]
+        else:
+            resname, record, position = rng.choice(WATER_NAMES), rng.choice(WATER_RECORDS), rng.choice(WATER_POSITIONS)
+        chain = {"mid-chain": "A"}.get(position, rng.choice(["W", "W", "S", " ", "A" if position == "after-protein" else "X"]))
+        waters.append({
+            "resname": resname, "record": record, "position": position, "chain": chain,
+            "resseq": 501 + 7 * i + k, "icode": rng.choice(["", "", "", "A"]),
+            "altlocs": rng.choice([[" "], [" "], ["A"], ["A", "B"]]),
+            "hydrogens": rng.random() < 0.3,
+            "companions": rng.choice([[], [], ["ANISOU"], ["SIGATM"], ["ANISOU", "SIGATM", "SIGUIJ"]]),
+            "xyz": tuple(round(float(v), 3) for v in pts[i].xyz),
+        })
+    # a water-like residue the code does not know as water: must not be dropped by anyone
+    miss = {"resname": rng.choice(NEAR_MISS_NAMES), "record": "HETATM", "position": "after-protein", "chain": "Q", "resseq": 901, "icode": "", "altlocs": [" "], "hydrogens": False, "companions": [], "xyz": tuple(round(float(v), 3) for v in pts[nwat].xyz)}
+
+    def chain_lines(atoms, hetatm=()):
+        return [ln + "\n" for ln in B.to_pdb(atoms, ter=False, end=False, hetatm_for=hetatm).splitlines() if ln.startswith(("ATOM", "HETATM"))]
+
+    la, lb, lh = chain_lines(pa), chain_lines(pb), chain_lines(het, (het_name,))
+    # mid-chain waters go between residue 2 and 3 of chain A
+    cut = next(i for i, ln in enumerate(la) if ln[22:26].strip() == "3")
+    by = lambda pos: [ln for w in waters if w["position"] == pos for ln in water_lines(w)]  # noqa: E731
+    header = [
+        "HEADER    WATER SPELLINGS FOR --DROP-WATER                                      \n",
+        "REMARK   2  HOH AND WAT RESIDUES ARE WATER; THIS LINE IS NOT A COORDINATE RECORD\n",
+        "SEQADV 1XYZ HOH W  501  UNP  P00000              EXPRESSION TAG                 \n",
+        "FORMUL   3  HOH   *6(H2 O)                                                      \n",
+    ]
+    body = header + by("before-protein") + la[:cut] + by("mid-chain") + la[cut:] + ["TER\n"] + by("between-chains") + lb + ["TER\n"] + lh + by("after-protein") + water_lines(miss) + ["END\n"]
+    text = "".join(renumber_serials(body))
+    spell = sorted({f"{w['resname']}/{w['record']}/{w['position']}" for w in waters})
+    return {
+        "id": f"dw{k}-{'-'.join(seqa)}/{'-'.join(seqb)}+{het_name}(HETATM)+" + ",".join(spell) + f"+{miss['resname']}",
+        "pdb": text, "het": het_name, "waters": [{kk: vv for kk, vv in w.items()} for w in waters], "near_miss": miss["resname"],
+    }
+
+
+def dropwater_structures(ctx):
+    feats = [(n, r, pos) for n in WATER_NAMES for r in WATER_RECORDS for pos in WATER_POSITIONS]  # 16 spellings x positions
+    ctx.rng.shuffle(feats)
+    nstruct = 4 if not ctx.thorough else 12
     out = []
-    for k in range(2 if not ctx.thorough else 6):
-        seq = [rng.choice(TITRATABLE), rng.choice(STANDARD_AA), rng.choice(["SER", "THR", "TYR", "ASN"]), rng.choice(STANDARD_AA)]
-        pep = B.build_peptide(seq, chain="A")
-        # a free amino acid written as HETATM records: not water, must survive --drop-water
-        het_name = rng.choice(["MET", "PHE", "LEU"])
-        het = B.build_peptide([het_name], chain="L", origin=(0.0, 25.0, 0.0))
-        nprng = np.random.default_rng(rng.randrange(1 << 30))
-        w1 = B.waters(2, around=pep + het, rng=nprng, chain="W", start=201, near=[a for a in pep if a.name == "O"][1])
-        w2 = B.waters(2, around=pep + het + w1, rng=nprng, chain="V", start=301, resname="WAT", hydrogens=(k % 2 == 1))
-        atoms = pep + het + w1 + w2
-        text = B.to_pdb(atoms, hetatm_for=("HOH", het_name) if k % 2 == 0 else ("HOH", "WAT", het_name))
-        out.append({"id": f"dw-{'-'.join(seq)}+{het_name}(HETATM)+2HOH+2WAT{'h' if k % 2 else ''}", "pdb": text, "het": het_name})
+    for k in range(nstruct):
+        must = [feats[(4 * k + j) % len(feats)] for j in range(4)]
+        out.append(dropwater_structure(ctx, k, must))
     return out
+
+
+def real_drop_decisions(text):
+    """For every line of `text`: (record objects the real reader makes of it, which of them
+    the real main.drop_water removes). Uses the repo's own pdb.read_pdb and main.drop_water."""
+    import io as _io
+
+    from pdb2pqr import main as pmain
+    from pdb2pqr import pdb as ppdb
+
+    out = []
+    for ln in text.splitlines():
+        if not ln.strip():
+            continue
+        recs, _errs = ppdb.read_pdb(_io.StringIO(ln + "\n"))
+        kept = pmain.drop_water(list(recs))
+        out.append((ln, recs, [not any(r is k for k in kept) for r in recs]))
+    return out
+
+
+def text_water_line(ln):
+    """The independent text-level definition: a coordinate record (ATOM/HETATM) of a residue named HOH/WAT."""
+    return ln[0:6] in ("ATOM  ", "HETATM") and ln[17:20] in WATER_NAMES
+
+
+def dropwater_hypotheses(ctx, structs):
+    """Tie for C09_drop_water_commutes and for Model.Pipeline.drop_water:
+    (H1) water_line l -> every record the real parser makes of l is removed by the real drop_water,
+    (H2) not water_line l, l a coordinate record -> none is removed,
+    (M)  the Coq model's is_water agrees with the real decision for every record kind seen."""
+    seen = {}
+    broke = False
+    nrep = 0
+    for st in structs:
+        for ln, recs, dropped in real_drop_decisions(st["pdb"]):
+            rec6 = ln[0:6]
+            wl = text_water_line(ln)
+            for r, d in zip(recs, dropped):
+                rtype = r.record_type()
+                res = getattr(r, "res_name", "")
+                res = res if isinstance(res, str) else ""
+                key = (rtype, res)
+                if key not in seen:
+                    seen[key] = (d, ln)
+                ctx.cov["correspondence_cases"] += 1
+                bad = None
+                if wl and not d:
+                    bad = ("H1", f"water coordinate line kept by main.drop_water: {ln!r} (record class {type(r).__name__})")
+                elif not wl and rec6 in ("ATOM  ", "HETATM") and d:
+                    bad = ("H2", f"non-water coordinate line removed by main.drop_water: {ln!r}")
+                if bad:
+                    broke = True
+                    ctx.cov["correspondence_disagreements"] += 1
+                    if nrep < 3:
+                        nrep += 1
+                        ctx.broke("correspondence-broken", f"hypothesis {bad[0]} of C09_drop_water_commutes fails on the real parser + main.drop_water", bad[1], {"kind": "tie-dropwater", "line": ln})
+            if wl and not recs:
+                ctx.count("drop-water:tie:water-line-not-parsed")
+    # (M) the Coq model's decision for every (record type, residue name) seen
+    keys = sorted(seen)
+    safe = [k for k in keys if all(32 <= ord(c) <= 126 and c != '"' for c in k[0] + k[1])]
+    term = 'String.concat "" (map (fun r => if is_water r then "1" else "0") ' + core.coq_list([f"mk_prec {core.coq_string(a)} {core.coq_string(b)} tt" for a, b in safe]) + ")"
+    header = "From Coq Require Import String List.\nFrom PV Require Import Model.Pipeline.\nImport ListNotations.\nOpen Scope string_scope.\n"
+    try:
+        res = core.run_cases("C09dw", header, [term], chunk=10)[0]
+    except core.CoqEvalError as e:
+        ctx.broke("correspondence-broken", "Model.Pipeline.is_water could not be evaluated", str(e))
+        return True
+    for (rtype, resn), bit in zip(safe, res):
+        ctx.cov["correspondence_cases"] += 1
+        ctx.count(f"drop-water:tie:{rtype}:{resn if resn in WATER_NAMES else ('other' if resn else '-')}:{'dropped' if seen[(rtype, resn)][0] else 'kept'}")
+        if (bit == "1") != seen[(rtype, resn)][0]:
+            broke = True
+            ctx.cov["correspondence_disagreements"] += 1
+            ctx.broke("correspondence-broken", "Model.Pipeline.is_water/drop_water vs main.drop_water", f"record type {rtype!r} residue {resn!r}: model says {'dropped' if bit == '1' else 'kept'}, the code {'drops' if seen[(rtype, resn)][0] else 'keeps'} it (line {seen[(rtype, resn)][1]!r})", {"kind": "tie-dropwater", "line": seen[(rtype, resn)][1]})
+    return broke
 
 
 def dropwater_case(ctx, st, ff):
@@ -644,10 +840,14 @@ def dropwater_case(ctx, st, ff):
         return
     nontrivial = c["pqr_text"] is not None and c["pqr_text"] != b["pqr_text"] and len(atom_lines(b["pqr_text"])) > 0
     ctx.evaluated(("drop-water", st["id"], ff), nontrivial)
-    ctx.count(f"drop-water:{ff}")
+    ctx.count(f"drop-water:{ff}:{'nontrivial' if nontrivial else 'trivial'}")
+    for w in st.get("waters", []):
+        ctx.count(f"drop-water:spelling:{w['resname']}/{w['record']}/{w['position']}")
+        ctx.count(f"drop-water:attrs:chain={'blank' if w['chain'] == ' ' else ('protein' if w['chain'] in 'AB' else 'own')},icode={'yes' if w['icode'] else 'no'},altloc={''.join(w['altlocs']).strip() or 'none'},H={'yes' if w['hydrogens'] else 'no'},companions={'+'.join(w['companions']) or 'none'}")
     if a["pqr_text"] == b["pqr_text"]:
         return
     # diagnose
+    cond = ""
     if a["pqr_text"] is None:
         field, detail = "no-output", f"--drop-water run wrote no PQR ({exc_text(a)})"
     else:
@@ -660,11 +860,17 @@ def dropwater_case(ctx, st, ff):
             field += ":" + ("non-water-HETATM" if all(r[2] == st["het"] for r in lost) else "other")
         elif ra - rb:
             kept = sorted(ra - rb)
-            field, detail = "water-kept", f"--drop-water output still contains {kept}"
+            field = "water-kept"
+            specs = [w for w in st.get("waters", []) if any(str(w["resseq"]) == r[1] for r in kept)]
+            cond = "+".join(sorted({f"{w['record']}-record" for w in specs})) or "unknown-spelling"
+            detail = f"--drop-water output still contains {kept}" + (f" (input spelling: {sorted({(w['resname'], w['record'], w['position']) for w in specs})})" if specs else "")
         else:
-            d = compare_atoms(pb, pa, names_may_differ=False, chain_shown=True, chains_allowed=set("ALWV") | {""}, raw=True)
+            d = compare_atoms(pb, pa, names_may_differ=False, chain_shown=True, chains_allowed=set("ABLWSXQ") | {""}, raw=True)
             field, detail = d if d else ("bytes", "same atoms, different file bytes")
-    ctx.fail({"site": "main.drop_water", "field": field}, f"--drop-water (ff {ff}, {st['id']}) differs from the run on the input with waters deleted: {detail}", {"kind": "dropwater", "structure": st["id"], "pdb": text, "ff": ff, "het": st["het"], "detail": detail})
+    sig = {"site": "main.drop_water", "field": field}
+    if cond:
+        sig["condition"] = cond
+    ctx.fail(sig, f"--drop-water (ff {ff}, {st['id']}) differs from the run on the input with waters deleted: {detail}", {"kind": "dropwater", "structure": st["id"], "pdb": text, "ff": ff, "het": st["het"], "waters": st.get("waters", []), "detail": detail})
 
 
 # ---------------------------------------------------------------------------
@@ -752,6 +958,38 @@ def neutral_compare(st, base_atoms, opt_atoms, flags):
     return out, info
 
 
+def ffname_step_tie(ctx, st, base, res, flags, info):
+    """Tie for C09_neutral_shift / C09_neutral_only_termini: between the two real runs every
+    residue's ffname is either unchanged or goes Nxxx -> NEUTRAL-Nxxx (an N-terminus under
+    --neutraln) / Cxxx -> NEUTRAL-Cxxx (a C-terminus under --neutralc): the step relation of the theorem."""
+    try:
+        r1 = [(str(r.chain_id), str(r.res_seq), r.ffname) for r in base["result"][2].residues]
+        r2 = [(str(r.chain_id), str(r.res_seq), r.ffname) for r in res["result"][2].residues]
+    except Exception as e:  # noqa: BLE001
+        ctx.broke("correspondence-broken", "cannot read residue ffnames of the real runs", f"{type(e).__name__}: {e}")
+        return
+    nterm, cterm = {tuple(x) for x in st["nterm"]}, {tuple(x) for x in st["cterm"]}
+    bad = None
+    if [x[:2] for x in r1] != [x[:2] for x in r2]:
+        bad = "the residue lists of the two runs differ"
+    changed = set()
+    for (c, n, f1), (_c, _n, f2) in zip(r1, r2):
+        ctx.cov["correspondence_cases"] += 1
+        if f1 == f2:
+            continue
+        changed.add((c, n))
+        okn = "n" in flags and (c, n) in nterm and f1.startswith("N") and f2 == "NEUTRAL-" + f1
+        okc = "c" in flags and (c, n) in cterm and f1.startswith("C") and f2 == "NEUTRAL-" + f1
+        if not (okn or okc) and bad is None:
+            bad = f"residue {c} {n}: ffname {f1} -> {f2} under --neutral{flags} is not N->NEUTRAL-N / C->NEUTRAL-C at a terminus"
+    if bad is None and changed != set(info["neutralised"]):
+        bad = f"residues whose ffname changed {sorted(changed)} != terminal residues whose output changed {sorted(info['neutralised'])}"
+    if bad:
+        ctx.cov["correspondence_disagreements"] += 1
+        if len([b for b in ctx.broken if "step relation" in b["what"]]) < 3:
+            ctx.broke("correspondence-broken", "real runs leave the step relation of C09_neutral_shift (ffname transitions)", f"{st['id']} --neutral{flags}: {bad}", {"kind": "tie-neutral", "structure": st["id"], "flags": flags})
+
+
 def neutral_case(ctx, st, X):
     base_args = ["--ff=PARSE", "--keep-chain"]
     base = run_real(ctx, st["pdb"], base_args)
@@ -768,6 +1006,7 @@ def neutral_case(ctx, st, X):
             continue
         oa = parse_pqr(res["pqr_text"], False)
         viol, info = neutral_compare(st, ba, oa, flags)
+        ffname_step_tie(ctx, st, base, res, flags, info)
         ctx.evaluated(("neutral", st["id"], flags), len(info["neutralised"]) > 0)
         ctx.count(f"neutral:{flags}:termini-neutralised={len(info['neutralised'])}")
         for k in (set(map(tuple, st["nterm"])) if "n" in flags else set()) | (set(map(tuple, st["cterm"])) if "c" in flags else set()):
@@ -809,7 +1048,7 @@ def replay_case(ctx, case):
         return []
     if kind == "dropwater":
         before = len(ctx.failures) + sum(ctx.known_hits.values())
-        dropwater_case(ctx, {"id": case["structure"], "pdb": case["pdb"], "het": case.get("het", "")}, case["ff"])
+        dropwater_case(ctx, {"id": case["structure"], "pdb": case["pdb"], "het": case.get("het", ""), "waters": case.get("waters", [])}, case["ff"])
         after = len(ctx.failures) + sum(ctx.known_hits.values())
         return [({"site": "main.drop_water"}, "still differs")] if after > before else []
     if kind == "neutral":
@@ -894,8 +1133,9 @@ def run(ctx):
     high = (not ok) or tie_broke
     search_lattice(ctx, (S0, Srand, Sdna), high)
     dws = dropwater_structures(ctx)
+    dw_broke = dropwater_hypotheses(ctx, dws)
     for i, st in enumerate(dws):
-        for ff in FFS if (i == 0 or high or ctx.thorough) else [FFS[(ctx.seed + i) % 6]]:
+        for ff in FFS if (i == 0 or high or dw_broke or ctx.thorough) else ["PARSE", FFS[(ctx.seed + i) % 6]]:
             dropwater_case(ctx, st, ff)
     search_neutral(ctx, high)
     ctx.sample({"structure": S0["id"], "pdb_head": S0["pdb"].splitlines()[:3], "lattice": "63 option subsets vs base, numeric columns compared as bytes (tokens under --whitespace)"})
@@ -919,7 +1159,7 @@ def run(ctx):
 
 def replay(ctx, data):
     case = data.get("case") or {}
-    if not case or case.get("kind") == "tie":
+    if not case or str(case.get("kind", "")).startswith("tie"):
         print("replay: nothing to re-execute (proof / correspondence break); re-run ./check C09")
         return 0
     viol = replay_case(ctx, case)
